@@ -69,6 +69,13 @@ def plan(tier):
                     pl.units.append(U("A.%s.s%s.%s.%s" % (tag, sname, at, "chk" if chk else "nochk"), "contracts.arglayer", "h_check_next_arg",
                                       (d, st, at, True, chk), native_ok=True, sample_models=True, definition=repr(d)))
 
+    # serialisation: the generic Command.tosieve on every generated definition (tags with their parameter, positionals, lists,
+    # multi-line values), the same contract as for the built-in classes under C04
+    for d in descs:
+        tag = custom.class_name(d)
+        for v in ("all", "none", "lists", "multiline"):
+            pl.units.append(U("S.%s.%s" % (tag, v), "contracts.serializer", "h_tosieve_custom", (d, v), native_ok=True, sample_models=True))
+
     def lf(u, label):
         return not label.startswith("gate.only")
 
@@ -81,7 +88,8 @@ def plan(tier):
     pl.unverified = ["the generic argument interpreter on SYMBOLIC definitions (symbolic records are not supported by the executor): instead "
                      "every definition of an enumerated family of the documented shape is verified with symbolic VALUES -- bounded by "
                      "shape (%d definitions), complete in values, states and loaded-extension sets" % len(descs),
-                     "serialisation (tosieve) of custom commands: bounded (print / re-parse / fixed point on the enumerated uses)"]
+                     "re-parsing of the serialised text of custom commands: bounded (print / re-parse / fixed point on the enumerated uses); the "
+                     "text itself (token sequence, values unchanged, separation, newline after multi-line values) is discharged per definition"]
     pl.explanation = (
         "Deductive: add_commands binds exactly the classes whose name ends in `Command` (single class and list), lookup finds "
         "a name iff bound, case-insensitively, other names stay unknown (symbolic execution of the real functions, module "
